@@ -348,7 +348,7 @@ func Transcript(trace bool) []string {
 			ob.Header.Get("Allow"), ob.NodeAllow, ob.NodeMethods, fmtParams(ob.Params), ob.Panic, ob.NilHandler))
 	}
 	routes := func(label string) {
-		rt := r.Routes()
+		rt := takeRoutes(r)
 		ks := make([]string, 0, len(rt))
 		for k := range rt {
 			ks = append(ks, k)
@@ -744,6 +744,35 @@ func c07Isolation(c *Ctx) {
 		if got := strings.Join(mon.SortedCopy(o.NodeMethods), ","); got != "GET,HEAD,OPTIONS,POST" {
 			bad(fmt.Sprintf("Node().Methods() of a fresh router's route is %q after another router's lists were overwritten by their caller", got), nil)
 			return
+		}
+	}
+	// (6) responses: what a handler of one router wrote (HEAD goes through a wrapper object) is invisible to the handler
+	// of another router's next HEAD request, whose own headers reach the client
+	{
+		envA, envB := mon.NewEnv(), mon.NewEnv()
+		ra, rb := envA.NewRouter("other"), envB.NewRouter("fresh")
+		ha := envA.NewHnd(mon.KRoute, "/o")
+		ha.Run = func(w http.ResponseWriter, _ *http.Request, _ *mon.Hnd) {
+			w.Header().Set("X-Other", "secret-of-other")
+			w.Write([]byte("body of the other router"))
+		}
+		ra.Handle("/o", ha, nil, "GET")
+		sawForeign := ""
+		hb := envB.NewHnd(mon.KRoute, "/f")
+		hb.Run = func(w http.ResponseWriter, _ *http.Request, _ *mon.Hnd) {
+			sawForeign = w.Header().Get("X-Other")
+			w.Header().Set("X-Fresh", "1")
+			w.Write([]byte("fresh"))
+		}
+		rb.Handle("/f", hb, nil, "GET")
+		for k := 0; k < 3; k++ {
+			mon.Do(ra, mon.Req{Method: "HEAD", Path: "/o"})
+			o := mon.Do(rb, mon.Req{Method: "HEAD", Path: "/f"})
+			c.Eval()
+			if sawForeign != "" || o.Header.Get("X-Fresh") != "1" || o.Header.Get("X-Other") != "" || o.Header.Get("Content-Length") != "5" {
+				bad(fmt.Sprintf("HEAD on a fresh router after HEAD on another one: its handler saw X-Other=%q in its header map, the client got X-Fresh=%q X-Other=%q Content-Length=%q (expected \"\", 1, \"\", 5)", sawForeign, o.Header.Get("X-Fresh"), o.Header.Get("X-Other"), o.Header.Get("Content-Length")), nil)
+				return
+			}
 		}
 	}
 	c.Class("isolation_battery")
